@@ -13,16 +13,13 @@ import (
 
 	_ "github.com/ovh/kmip-go" // registers tags, enumerations and masks
 	"github.com/ovh/kmip-go/ttlv"
+	"verifharness/pinned"
 	"verifharness/vlib"
 )
 
 func init() { All["C17"] = Spec{"exploration", runC17} }
 
-type Registry struct {
-	Tags  map[string]int               `json:"tags"`
-	Enums map[string]map[string]uint32 `json:"enums"`
-	Masks map[string][]string          `json:"masks"`
-}
+type Registry = pinned.Registry
 
 var reHexName = regexp.MustCompile(`^0x[0-9A-Fa-f]+$`)
 
@@ -65,16 +62,9 @@ func LiveRegistry() *Registry {
 	return r
 }
 
-func pinnedPath(name string) string { return filepath.Join(vlib.Root(), "pinned", name) }
+func pinnedPath(name string) string { return pinned.Path(name) }
 
-func LoadPinnedRegistry() (*Registry, error) {
-	b, err := os.ReadFile(pinnedPath("registry.json"))
-	if err != nil {
-		return nil, err
-	}
-	r := &Registry{}
-	return r, json.Unmarshal(b, r)
-}
+func LoadPinnedRegistry() (*Registry, error) { return pinned.Reg(), nil }
 
 // GenPinned writes pinned/registry.json from the live registry (run once by hand; never at check time).
 func GenPinned() error {
